@@ -506,7 +506,7 @@ def run_check(pid: str, tier: str, seed: int, replay: str | None = None) -> int:
                 return True
             return True
         cand = [f for f in failures if getattr(f, "main", False) and f.kind in ("oracle", "correspondence") and f.case is not None and not f.finding]
-        if 0 < len(cand) <= 12:
+        if 0 < len(cand) <= 40:
             keep = []
             for f in failures:
                 if f in cand and not reproduces(f):
